@@ -20,6 +20,12 @@ CHECKS["C18"] = dict(design="4/C18", technique="TLA+ event semantics of tree vis
 CHECKS["C19"] = dict(design="4/C19", technique="TLA+ document builder + depth reference (GqlDepth); TLC enumerates all build sequences, variable values and name filters; replay into MaxDepthValidationRule",
     text="spec/GqlDepth.tla builds operations by actions (fields, inline fragments, named fragment spreads, @skip/@include steered by a variable) so that only valid documents arise, defines the nesting depth and the set of operations to flag for each limit and operation-name filter, and checks on the model that wrapping in fragments never changes the depth; every generated document is replayed (limits 0..5, direct call and validate_ast, long-lived rule instances and parsed documents) and the flagged set must match with no exception.",
     note="Depth = number of nested field selection sets below the operation's own (library's documented example = 4). Fixed two-type schema and three-fragment library.")
+CHECKS["C08"] = dict(design="4/C08", technique="TLA+ operational executor model (GqlSched) model-checked over all plans x completion orders (safety + liveness), PlusCal model of gather_futures; behaviours replayed step by step on deterministic thread-pool / asyncio / blocking configurations",
+    text="spec/GqlSched.tla models plan construction, Start/Complete/Advance of the executor over a deferring runtime; TLC checks NoLostWakeup, CrashSurfaces, OnlyReachable on every plan (bounded) and completion order, Terminates under fairness, and the line-granular PlusCal model of gather_futures (outer resolved exactly once, result iff all ok). Every behaviour is replayed on the real Executor with a fake-pool ThreadPoolRuntime and a private-loop AsyncIORuntime, comparing the pending set after every completion, and on both blocking executors; final ordered data, error paths and crash surfacing must equal the schedule-independent reference. A sample also runs on real worker threads / loop executor (final result only).",
+    note="Deterministic runtimes: callbacks run synchronously inside complete(); leaf/list/custom-scalar outcomes are a fixed family; documents are rendered in several CollectFields-equivalent shapes.")
+CHECKS["C09"] = dict(design="4/C09", technique="GqlSched with op=mutation: invariants Serial and TopOrder model-checked; behaviours replayed with per-step pending-set and invocation-order comparison",
+    text="Same model with the serial continuation chain (Advance): TLC checks that a later top-level field is never started before the earlier one has settled (Serial), that top-level resolvers are invoked in document order (TopOrder) and termination; every mutation plan x completion order is replayed on the fake-pool thread-pool and private-loop asyncio runtimes comparing the pending set after every completion and the invocation order, with top-level selections also reached through fragments, duplicated through a later fragment, and served by root-object methods; blocking executors run the synchronous projection.",
+    note="As C08.")
 NOT_YET = {
 }
 
